@@ -48,7 +48,16 @@ pub fn c13_obs_pair(a: &[u8], b: &[u8]) -> String {
 		let rb = RiRef::new(inp(b).unwrap()).ok().unwrap();
 		let rel = ra.relative_to(rb);
 		let suf = ra.suffix(rb).map(|(p, q, f)| format!("{} {:?} {:?}", lossy(p.as_bytes()), q.map(|x| lossy(x.as_bytes())), f.map(|x| lossy(x.as_bytes()))));
-		format!("rel[{}] suffix[{:?}]", lossy(rel.as_bytes()), suf)
+		// the same two calls on the non-reference type when both texts have a scheme
+		let typed = match (Ri::new(inp(a).unwrap()), Ri::new(inp(b).unwrap())) {
+			(Ok(ia), Ok(ib)) => {
+				let rel2 = ia.relative_to(ib);
+				let suf2 = ia.suffix(ib).map(|(p, q, f)| format!("{} {:?} {:?}", lossy(p.as_bytes()), q.map(|x| lossy(x.as_bytes())), f.map(|x| lossy(x.as_bytes()))));
+				format!("Ri: rel[{}] suffix[{:?}] base[{}]", lossy(rel2.as_bytes()), suf2, lossy(ia.base().as_bytes()))
+			}
+			_ => "-".into(),
+		};
+		format!("rel[{}] suffix[{:?}] {typed}", lossy(rel.as_bytes()), suf)
 	}) {
 		Guard::Ok(s) => s,
 		Guard::Panic(pm) => format!("panic: {pm}"),
